@@ -123,6 +123,10 @@ static void *vpd_calloc(size_t n, size_t sz)
 		static const struct evdns_getaddrinfo_request z; q = malloc(sizeof(struct evdns_getaddrinfo_request)); __CPROVER_assume(q != NULL); *(struct evdns_getaddrinfo_request *)q = z;
 	} else if (n == 1 && sz == sizeof(struct evdns_cache)) {
 		static const struct evdns_cache z; q = malloc(sizeof(struct evdns_cache)); __CPROVER_assume(q != NULL); *(struct evdns_cache *)q = z;
+#ifdef VPD_TYPED_HOSTS    /* harnesses that walk the hosts list (TAILQ links are read back) with concrete names */
+	} else if (n == 1 && sz >= sizeof(struct hosts_entry) && sz <= sizeof(struct hosts_entry) + VPD_TEXT_MAX) {
+		static const struct vpd_he_obj z; q = malloc(sizeof(struct vpd_he_obj)); __CPROVER_assume(q != NULL); *(struct vpd_he_obj *)q = z; vpd_track(q, sz);
+#endif
 	} else if (n == 1 && sz >= sizeof(struct hosts_entry) && sz <= sizeof(struct hosts_entry) + VPD_TEXT_MAX) {
 		/* (untyped literal-size block: the name is copied across hostname[1], the tail padding and the text area,
 		 *  which turns every byte of a typed object into a byte_update of the whole structure: 15 M variables) */
